@@ -1611,7 +1611,7 @@ func runPlace(ctx *Ctx) {
 func init() {
 	register(&Engine{
 		Name: "batch",
-		Rule: "kmipserver.BatchExecutor.HandleRequest with scripted handlers: every batch up to length 4 (quick) / 5 (thorough, plus length 6 under unset/Stop) over per-item outcome {success, typed error, plain error, panic, unrouted, critical extension} x option {unset, Continue, Stop, Undo} x {supported, unsupported} version x {matching, mismatching} count x with/without ids; random batches up to 40 items with restricted version sets, unknown option values, discover payloads, non-critical extensions, zero/negative versions, placeholder accesses; distinct = distinct line; nontrivial = more than one item",
+		Rule: "kmipserver.BatchExecutor.HandleRequest with scripted handlers: every batch up to length 4 (quick) / 5 (thorough, plus length 6 under unset/Stop) over per-item outcome {success, typed error, plain error, panic, unrouted, critical extension} (plain errors and panic values include ones whose Error/Unwrap/String method panics again) x option {unset, Continue, Stop, Undo} x {supported, unsupported} version x {matching, mismatching} count x with/without ids; random batches up to 40 items with restricted version sets, unknown option values, discover payloads, non-critical extensions, zero/negative versions, placeholder accesses; distinct = distinct line; nontrivial = more than one item",
 		Run:  runBatch,
 	})
 	register(&Engine{
